@@ -321,7 +321,7 @@ func main() {
 		if sc.name == "the same file twice: ok1.templ, ok1.templ" {
 			// the second event of an unchanged file is skipped (modification time not newer): exactly one write
 		}
-		st := vsched.Explore(vsched.ExploreConfig{Opts: vsched.Options{MaxSteps: 5000}, Bound: bound, Deadline: deadline, MaxExecutions: run.Pick(200000, 3000000), StateCaching: true}, sc.build(ref))
+		st := vsched.Explore(vsched.ExploreConfig{Opts: vsched.Options{MaxSteps: 5000}, Bound: bound, Deadline: deadline, GuaranteedBound: 1, MaxExecutions: run.Pick(200000, 3000000), StateCaching: true}, sc.build(ref))
 		record("handler: "+sc.name, st)
 	}
 	// (B)
@@ -368,7 +368,7 @@ func main() {
 			}
 			continue
 		}
-		st := vsched.Explore(vsched.ExploreConfig{Opts: vsched.Options{MaxSteps: 20000, TimeHorizon: int64(200 * time.Millisecond)}, Bound: rb, Deadline: deadline, MaxExecutions: run.Pick(60000, 1500000), StateCaching: true}, sc.build(want, wantErr))
+		st := vsched.Explore(vsched.ExploreConfig{Opts: vsched.Options{MaxSteps: 20000, TimeHorizon: int64(200 * time.Millisecond)}, Bound: rb, Deadline: deadline, GuaranteedBound: 1, MaxExecutions: run.Pick(60000, 1500000), StateCaching: true}, sc.build(want, wantErr))
 		record(sc.name, st)
 	}
 	os.RemoveAll(filepath.Join(scratch, "schedtree"))
